@@ -191,6 +191,20 @@ def step (d : D) (t : List String) : D × String :=
       let (f, s) := WriteSnapshot d.params.cap d.st sn sg
       ({ d with st := s }, failStr f)
     | none => (d, "bad-op")
+  | ["nop"] => (d, "skip")
+  | ["admit", id, fork] =>
+    match id.toNat?, parseBool fork with
+    | some id, some fork =>
+      match aget d.pool id with
+      | some tx =>
+        match LockInputs d.st tx fork with
+        | (some .err, _) => (d, "reject")
+        | (some .panic, _) => (d, "panic")
+        | (none, s1) =>
+          let (f, s2) := WriteTransaction s1 tx
+          ({ d with st := s2 }, match f with | none => "ok" | some .err => "reject" | some .panic => "panic")
+      | none => (d, "bad-op")
+    | _, _ => (d, "bad-op")
   | ["dump"] => (d, dump d)
   | ["supply"] =>
     (d, joinWith " " (d.assets.map (fun a => s!"{a}:{readTotal d.st a}:{unspent d.st a}")))
